@@ -749,6 +749,7 @@ class Translator:
             out.append("#ifdef __CPROVER__")
             out.append("struct VH_%d { uint64_t size; %s payload[%s]; };" % (k, ct, cap))
             out.append("static void *verif_new_%d(uint64_t n) {" % k)
+            out.append("  if (n > VERIF_HUGE_ALLOC) { verif_throw_std(VERIF_TI_bad_alloc); return 0; }")
             out.append("  __CPROVER_assert(n <= sizeof(((struct VH_%d*)0)->payload), \"allocation bound: typed request exceeds the block capacity (unwinding assertion)\");" % k)
             out.append("  __CPROVER_assume(n <= sizeof(((struct VH_%d*)0)->payload));" % k)
             out.append("  struct VH_%d *b = (struct VH_%d *)malloc(sizeof(struct VH_%d)); __CPROVER_assume(b != 0);" % (k, k, k))
@@ -1145,7 +1146,7 @@ class Translator:
                     nconst = L.ConstIntGetZExtValue(args[0])
                 k = self.typed_alloc(ety, nconst)
                 lines.append("%s(%s)verif_new_%d(%s);" % (dst, self.ctype(ty), k, A(0)))
-                return False  # allocation failure is out of scope: never throws
+                return True  # only absurd sizes (> VERIF_HUGE_ALLOC) raise bad_alloc
             return None
         if nm == "__cxa_free_exception":
             return False
